@@ -44,18 +44,23 @@ func (g *Gateway) newSubscriptionEntry(id string, ctx *planner.PlanningContext) 
 
 	additionalRootSteps := make([]*planner.QueryPlanStep, 0)
 
-	for _, rs := range plan.RootSteps {
+	// the plan may be shared (caching planner): work on copies of the root steps
+	// instead of cutting the dependent steps off the plan itself
+	rootSteps := make([]*planner.QueryPlanStep, len(plan.RootSteps))
+	for i, rs := range plan.RootSteps {
 		additionalRootSteps = append(additionalRootSteps, rs.Then...)
-		rs.Then = nil
+		cpy := *rs
+		cpy.Then = nil
+		rootSteps[i] = &cpy
 	}
 
-	rootQueryers := g.getQueryers(ctx, plan.RootSteps)
+	rootQueryers := g.getQueryers(ctx, rootSteps)
 
-	if len(plan.RootSteps) != 1 {
+	if len(rootSteps) != 1 {
 		return nil, errors.New("too many root operations")
 	}
 
-	rootStep := plan.RootSteps[0]
+	rootStep := rootSteps[0]
 
 	queryer := rootQueryers[rootStep.URL]
 
